@@ -186,6 +186,12 @@ for suf, lvl, k in (("ast_k2", "ast", 2), ("smart_k2", "smart", 2), ("cst_k2", "
       functions=ALIGN_FUNCS[:4] + ["ast_grep_core::match_tree::match_node::match_single_node_while_skip_trivial", "ast_grep_core::match_tree::ComputeEnd"], assumes=ALIGN_ASSUMES,
       shape=f"FLAT({k})", bounds=f"2 goal terminals and exactly {k} candidate leaves (2 bytes wide) with symbolic kind in {{ident,number,comment,punct_a,punct_b}} and text; strictness {lvl} (concrete); arena of 4 nodes, unwind 8 (matcher loops 6), recursion depth 1")
 
+for suf, lvl in (("ast_k2", "ast"), ("relaxed_k2", "relaxed")):
+    H(prop="C03", name=f"c03_sep_{suf}", crate="core-h", module="c03_align", kani_args=LIGHT, recursion=REC_FLAT, loops=LOOPS_FLAT, features=["hooks", "n4"], timeout=3000, tier="lab", mem_gb=30,
+      decides=f"pattern children `x ,` (named leaf, then unnamed separator) under strictness {lvl}: the sibling alignment accepts a FLAT(2) node => a legal alignment exists",
+      functions=ALIGN_FUNCS[:4] + ["ast_grep_core::match_tree::match_node::match_single_node_while_skip_trivial", "ast_grep_core::match_tree::ComputeEnd"], assumes=ALIGN_ASSUMES,
+      shape="FLAT(2)", bounds=f"goals concrete (ident `x`, punct), 2 candidate leaves with symbolic kind in {{ident,number,comment,punct_a,punct_b}} and text; strictness {lvl}; unwind 8 (matcher loops 6), recursion depth 1")
+
 H(prop="C03", name="c03_terminal_step", crate="core-h", module="c03_terminal", features=["hooks", "n4"],
   decides="match_terminal / should_skip_trailing == decision table of the strictness documentation; MatchedBoth => kinds agree (or goal ERROR) and (unnamed or text equal or signature)",
   functions=["ast_grep_core::match_tree::strictness::MatchStrictness::match_terminal", "ast_grep_core::match_tree::strictness::MatchStrictness::should_skip_trailing"],
@@ -484,12 +490,23 @@ H(prop="C19", name="c19_field_access_n4", crate="core-h", module="c19_nav", assu
   functions=["ast_grep_core::node::Node::field_children", "ast_grep_core::node::Node::field", "ast_grep_core::node::Node::child_by_field_id"],
   shape="ANY(4)", bounds="every tree <= 4 nodes, symbolic field label in {none, fielda, fieldb} per node, every start node; unwind 10")
 
+for sh, desc in (("a", "root -> 1 -> 2, root -> 3"), ("b", "root -> 1 -> {2, 3}"), ("c", "chain root -> 1 -> 2 -> 3"), ("d", "root -> {1, 2 -> 3}")):
+    H(prop="C19", name=f"c19_levelq_shape_{sh}", crate="core-h", module="c19_nav", features=["hooks", "n4"], timeout=1800, mem_gb=20,
+      assumes=[ST_TS, "std::collections::VecDeque replaced by the FIFO shim VecQueue (hook): only queue semantics are relied on"],
+      decides="Level from the root and from node 1 visits exactly the subtree, once each, by non-decreasing depth and in document order within a depth",
+      functions=["ast_grep_core::traversal::Level::next", "ast_grep_core::traversal::Level::new"],
+      shape=f"4 nodes: {desc}", bounds=f"tree shape {desc} (concrete), kinds and named bits of every node symbolic, start node in {{root, 1}}; unwind 6")
+H(prop="C19", name="c19_levelq_order_n4", crate="core-h", module="c19_nav", features=["hooks", "n4"], timeout=1800, mem_gb=45,
+  assumes=[ST_TS, "std::collections::VecDeque replaced by the FIFO shim VecQueue (hook): only queue semantics are relied on"],
+  decides="Level from any start node visits exactly its subtree, once each, by non-decreasing depth and in document order within a depth",
+  functions=["ast_grep_core::traversal::Level::next", "ast_grep_core::traversal::Level::new"],
+  shape="ANY(4)", bounds="every tree <= 4 nodes (symbolic shape, kinds, named bits), every start node; unwind 6 (arena of 4 nodes: no loop runs more than 5 times; unwinding assertions on)")
 for sh in range(2, 9):
     H(prop="C19", name=f"c19_level_shape{sh}", crate="core-h", module="c19_nav", assumes=[ST_TS], timeout=1800, mem_gb=20, tier="thorough", features=["hooks", "n4"],
-      loops={"<std::collections::VecDeque<tree_sitter_facade_sg::Node<": 5, "std::collections::VecDeque::<tree_sitter_facade_sg::Node<": 5},
+
       decides="Level from any start node visits exactly its subtree, once each, level by level",
       functions=["ast_grep_core::traversal::Level::next", "ast_grep_core::traversal::Level::new"],
-      shape=SHAPE_DESC[sh], bounds=f"tree shape {SHAPE_DESC[sh]} (concrete; one harness per shape), every start node x symbolic named bits; unwind 10, VecDeque loops 5 (unwinding assertions on)")
+      shape=SHAPE_DESC[sh], bounds=f"tree shape {SHAPE_DESC[sh]} (concrete; one harness per shape), every start node x symbolic named bits; VecDeque replaced by the FIFO shim VecQueue (hook); unwind 10")
 
 
 # ---------------------------------------------------------------- tier policy (measured)
@@ -498,9 +515,9 @@ for sh in range(2, 9):
 # lab      = harnesses kept as the record of what was tried but which the engine does not
 #            decide on this machine (time-outs / out of memory, DESIGN 3).  They are run only
 #            with `--tier lab`; no registered command runs them, no claim rests on them.
-_LAB_PREFIXES = ("c03_env_", "c03_len_", "c03_tt_", "c07_indent_shift", "c05k_logic", "c01k_rule_kinds", "c02_", "c04_", "c05d_", "c05_", 
+_LAB_PREFIXES = ("c03_env_", "c03_len_", "c03_tt_", "c03_sep_", "c07_indent_shift", "c05k_logic", "c01k_rule_kinds", "c02_", "c04_", "c05d_", "c05_", 
                  "c14_", "c12_", "c13_", "c01_combined", "c01_kinds_algebra", "c01_find_all_shape", "c01_outermost_shape", "c01_find_all_exact_n", "c01_outermost_pre_n", "c06_replace_all_disjoint_n4",
-                 "c06_rewrite", "c06_replace_all_shape", "c07_template_scan", "c11_replace_regex_total", "c11_string_case_split", "c19_level")
+                 "c06_rewrite", "c06_replace_all_shape", "c07_template_scan", "c11_replace_regex_total", "c11_string_case_split", "c19_level_", "c19_levelq_")
 for _h in HARNESSES:
     if _h["name"].startswith(_LAB_PREFIXES):
         _h["tier"] = "lab"
